@@ -804,6 +804,7 @@ type modTarget struct {
 	whole  bool
 	idx    Term            // the index (object reference / array index) that may change
 	member func(Term) Term // or: a predicate on the index
+	memberAt func(q, i Term) Term // the same predicate with the element index made explicit
 }
 
 func (w *World) modTargets(env *CEnv, ct *Contract) []modTarget {
@@ -882,7 +883,9 @@ func (w *World) modTarget(env *CEnv, e *CExpr) []modTarget {
 				}
 				ek := w.elemsKeyT(et)
 				arr := sel(w.hget(env.state(), ek), sarr(x.T))
-				return []modTarget{{key: w.fieldKey(p.Elem(), fi), member: func(q Term) Term {
+				return []modTarget{{key: w.fieldKey(p.Elem(), fi), memberAt: func(q, i Term) Term {
+					return and(le(intLit(0), i), lt(i, slen(x.T)), eq(sel(arr, add(soff(x.T), i)), q))
+				}, member: func(q Term) Term {
 					ex := Term{fmt.Sprintf("(exists ((ei! Int)) (and (<= 0 ei!) (< ei! %s) (= (select %s (+ %s ei!)) %s)))", slen(x.T).S, arr.S, soff(x.T).S, q.S), SBool}
 					// explicit instances at the program's index terms (each implies the
 					// existential, so the disjunction is equivalent; solvers rarely find them)
